@@ -37,16 +37,18 @@ Proof.
   unfold ocell_cell. cbn. destruct (iget im x). apply cell_eqb_refl.
 Qed.
 
-(* from PEnd with the plan durably not terminal: terminal write, then Wait returns *)
-Lemma end_ok sh pt pth im cb b :
-  is_terminal (ist im OPlan) = false ->
+(* the last two events of a generated trace, for the image so far *)
+Definition fin_events (sh : shape) (im : dimg) : list event :=
   let f := final sh (ist im) in
   let last := EvWrite OPlan (fst f) 0 false (snd f) in
-  exists fin,
-    run sh (mkst PEnd pt pth im cb b []) [last; EvRelease (render sh (img_of [last] im) (snd f))] = Some fin /\
-    released fin = true.
+  [last; EvRelease (render sh (img_of [last] im) (snd f))].
+
+(* from PEnd with the plan durably not terminal: terminal write, then Wait returns *)
+Lemma end_Acc sh pt pth im cb b k :
+  is_terminal (ist im OPlan) = false -> Acc sh k (mkst PEnd pt pth im cb b []) (fin_events sh im).
 Proof.
-  intros Hn f last. assert (Ht : is_terminal (fst f) = true) by apply final_terminal.
+  intros Hn. unfold fin_events. set (f := final sh (ist im)). set (last := EvWrite OPlan (fst f) 0 false (snd f)).
+  assert (Ht : is_terminal (fst f) = true) by apply final_terminal.
   set (s1 := put (with_reason (mkst PEnd pt pth im cb b []) (snd f)) OPlan (fst f) 0 false).
   assert (H1 : handle sh (mkst PEnd pt pth im cb b []) last = Some s1).
   { unfold last, handle, released, h_write, mkst. cbn [s_ph pphase_eqb obj_in_shape negb].
@@ -57,7 +59,7 @@ Proof.
   { unfold handle, h_release, s1, put, with_reason, with_img, mkst. cbn [s_ph s_img s_reason pphase_eqb andb].
     unfold ist. rewrite iget_iset_same. cbn [c_st]. rewrite Ht. cbn [andb].
     unfold fi, last. cbn [img_of]. now rewrite image_agrees_render. }
-  eexists. split.
-  - now rewrite (run_cons_handle _ _ _ _ _ H1), (run_cons_handle _ _ _ _ _ H2).
+  eapply Acc_cons; [exact H1|]. eexists. split.
+  - now rewrite (run_cons_handle _ _ _ _ _ H2).
   - reflexivity.
 Qed.
